@@ -174,7 +174,7 @@ impl Recorder {
             "chain": [], "late": false, "cause": "none", "mode": "-",
             "rrc": 0, "rho": 0, "rrec": false, "rrejected": false,
             "callk": "-", "callobj": 0, "callrc": 0, "callho": 0, "refqlen": -1, "expectpop": 0,
-            "retained": 0, "removed": [], "keep": [], "idlebefore": [], "nrej": 0,
+            "retained": 0, "removed": [], "keep": [], "idlebefore": [], "predcalls": [], "nrej": 0,
             "solo": false, "b_size": 0, "b_avail": 0, "b_wait": 0, "b_max": 0, "b_live": 0, "b_permits": 0,
             "permits": s.permits,
             "probe_got": -1, "probe_extra": "-", "stranded": 0,
@@ -435,6 +435,13 @@ impl Recorder {
                     e["chain"] = json!(self.chain[t]);
                 }
                 OpResult::Retain { retained, removed } => {
+                    // the predicate calls of this retain, in call order
+                    let truth = w.truth();
+                    let mut calls: Vec<u32> = truth.calls.iter().rev().take_while(|c| c.kind == CallKind::Pred || c.kind == CallKind::Detach)
+                        .filter(|c| c.kind == CallKind::Pred && c.task == t as i32).map(|c| c.obj).collect();
+                    calls.reverse();
+                    drop(truth);
+                    e["predcalls"] = json!(calls);
                     e["retained"] = json!(retained);
                     e["removed"] = json!(removed);
                     e["keep"] = json!(self.keep[t]);
